@@ -1056,7 +1056,7 @@ class ProductSpaceElement(LinearSpaceElement):
                 out[i] = np.asarray(self[i])
             return out
 
-    def __array__(self):
+    def __array__(self, dtype=None):
         """An array representation of ``self``.
 
         Only available if `is_power_space` is True.
@@ -1079,7 +1079,8 @@ class ProductSpaceElement(LinearSpaceElement):
         array([[ 1.,  2.,  3.],
                [ 4.,  5.,  6.]])
         """
-        return self.asarray()
+        arr = self.asarray()
+        return arr if dtype is None else arr.astype(dtype, copy=False)
 
     def __array_wrap__(self, array):
         """Return a new product space element wrapping the ``array``.
